@@ -290,257 +290,120 @@ Definition from_buf_radix_internal (dbg : bool) (w N : Z) (fuel : nat) (FROM_STR
         | Returned t64' => Done t64'
         end
       ) else (
-          if (radix =? 10) then (
-            let max_digits := ((ix_shr ((w * N) * 1233) 12) + 1) in
-            let significant := input_digits_len in
-            t71' <- while_loop (R := (result (list Z))) fuel
-              (fun significant => (significant >? max_digits))
-              (fun significant =>
-                t67' <- (if BE then (t65' <- usub (Z.of_nat (length buf)) significant ;; Done t65') else (t66' <- usub significant 1 ;; Done t66')) ;;
-                let idx := t67' in
-                t68' <- arr_get buf idx ;;
-                t69' <- byte_to_digit w N fuel FROM_STR t68' ;;
-                if (negb (t69' =? 0)) then (
-                  Done (Return (RErr KPosOverflow))
-                ) else (
-                  significant <- usub significant 1 ;;
-                  Done (Continue significant)
-                ))
-              significant ;;
-            match t71' with
-            | Exited significant =>
-                t73' <- radix_base w N fuel radix ;;
-                let '(base, power) := t73' in
-                t74' <- urem input_digits_len power ;;
-                let r := t74' in
-                let split := (if (r =? 0) then power else r) in
-                let radix_u8 := (to_u8 radix) in
-                let out := (ZERO (Z.to_nat N)) in
-                let first := 0 in
-                let i := (if leading_sign then 1 else 0) in
-                t82' <- while_loop (R := (result (list Z))) fuel
-                  (fun '(first, i) => (i <? (if leading_sign then (split + 1) else split)))
-                  (fun '(first, i) =>
-                    t77' <- (if BE then (Done i) else (t75' <- usub (Z.of_nat (length buf)) 1 ;; t76' <- usub t75' i ;; Done t76')) ;;
-                    let idx := t77' in
-                    t78' <- arr_get buf idx ;;
-                    t79' <- byte_to_digit w N fuel FROM_STR t78' ;;
-                    let d := t79' in
-                    if (d >=? radix_u8) then (
-                      Done (Return (RErr KInvalidDigit))
-                    ) else (
-                      t80' <- dmul dbg w first (ud w radix) ;;
-                      first <- dadd dbg w t80' (ud w d) ;;
-                      let i := (i + 1) in
-                      Done (Continue (first, i))
-                    ))
-                  (first, i) ;;
-                match t82' with
-                | Exited (first, i) =>
-                    out <- arr_set out 0 first ;;
-                    let start := i in
-                    t103' <- while_loop (R := (result (list Z))) fuel
-                      (fun '(out, start) => (start <? (Z.of_nat (length buf))))
-                      (fun '(out, start) =>
-                        let end_ := (start + power) in
-                        let carry := 0 in
-                        let j := 0 in
-                        t85' <- while_loop (R := (result (list Z))) fuel
-                          (fun '(out, carry, j) => (j <? N))
-                          (fun '(out, carry, j) =>
-                            t84' <- arr_get out j ;;
-                            let '(low, high) := (DigitGen.carrying_mul w t84' base carry 0) in
-                            let carry := high in
-                            out <- arr_set out j low ;;
-                            let j := (j + 1) in
-                            Done (Continue (out, carry, j)))
-                          (out, carry, j) ;;
-                        match t85' with
-                        | Exited (out, carry, j) =>
-                            if (negb (carry =? 0)) then (
-                              t92' <- while_loop (R := (result (list Z))) fuel
-                                (fun start => (andb (start <? (Z.of_nat (length buf))) (start <? end_)))
-                                (fun start =>
-                                  t89' <- (if BE then (Done start) else (t87' <- usub (Z.of_nat (length buf)) 1 ;; t88' <- usub t87' start ;; Done t88')) ;;
-                                  let idx := t89' in
-                                  t90' <- arr_get buf idx ;;
-                                  t91' <- byte_to_digit w N fuel FROM_STR t90' ;;
-                                  let d := t91' in
-                                  if (d >=? radix_u8) then (
-                                    Done (Return (RErr KInvalidDigit))
-                                  ) else (
-                                    let start := (start + 1) in
-                                    Done (Continue start)
-                                  ))
-                                start ;;
-                              match t92' with
-                              | Exited start =>
-                                  Done (Return (RErr KPosOverflow))
-                              | Returned t93' => Done (Return t93')
-                              end
+          t65' <- radix_base w N fuel radix ;;
+          let '(base, power) := t65' in
+          t66' <- urem input_digits_len power ;;
+          let r := t66' in
+          let split := (if (r =? 0) then power else r) in
+          let radix_u8 := (to_u8 radix) in
+          let out := (ZERO (Z.to_nat N)) in
+          let first := 0 in
+          let i := (if leading_sign then 1 else 0) in
+          t74' <- while_loop (R := (result (list Z))) fuel
+            (fun '(first, i) => (i <? (if leading_sign then (split + 1) else split)))
+            (fun '(first, i) =>
+              t69' <- (if BE then (Done i) else (t67' <- usub (Z.of_nat (length buf)) 1 ;; t68' <- usub t67' i ;; Done t68')) ;;
+              let idx := t69' in
+              t70' <- arr_get buf idx ;;
+              t71' <- byte_to_digit w N fuel FROM_STR t70' ;;
+              let d := t71' in
+              if (d >=? radix_u8) then (
+                Done (Return (RErr KInvalidDigit))
+              ) else (
+                t72' <- dmul dbg w first (ud w radix) ;;
+                first <- dadd dbg w t72' (ud w d) ;;
+                let i := (i + 1) in
+                Done (Continue (first, i))
+              ))
+            (first, i) ;;
+          match t74' with
+          | Exited (first, i) =>
+              out <- arr_set out 0 first ;;
+              let start := i in
+              t95' <- while_loop (R := (result (list Z))) fuel
+                (fun '(out, start) => (start <? (Z.of_nat (length buf))))
+                (fun '(out, start) =>
+                  let end_ := (start + power) in
+                  let carry := 0 in
+                  let j := 0 in
+                  t77' <- while_loop (R := (result (list Z))) fuel
+                    (fun '(out, carry, j) => (j <? N))
+                    (fun '(out, carry, j) =>
+                      t76' <- arr_get out j ;;
+                      let '(low, high) := (DigitGen.carrying_mul w t76' base carry 0) in
+                      let carry := high in
+                      out <- arr_set out j low ;;
+                      let j := (j + 1) in
+                      Done (Continue (out, carry, j)))
+                    (out, carry, j) ;;
+                  match t77' with
+                  | Exited (out, carry, j) =>
+                      if (negb (carry =? 0)) then (
+                        t84' <- while_loop (R := (result (list Z))) fuel
+                          (fun start => (andb (start <? (Z.of_nat (length buf))) (start <? end_)))
+                          (fun start =>
+                            t81' <- (if BE then (Done start) else (t79' <- usub (Z.of_nat (length buf)) 1 ;; t80' <- usub t79' start ;; Done t80')) ;;
+                            let idx := t81' in
+                            t82' <- arr_get buf idx ;;
+                            t83' <- byte_to_digit w N fuel FROM_STR t82' ;;
+                            let d := t83' in
+                            if (d >=? radix_u8) then (
+                              Done (Return (RErr KInvalidDigit))
                             ) else (
-                              let n := 0 in
-                              let j := start in
-                              t101' <- while_loop (R := (result (list Z))) fuel
-                                (fun '(n, j) => (andb (j <? end_) (j <? (Z.of_nat (length buf)))))
-                                (fun '(n, j) =>
-                                  t96' <- (if BE then (Done j) else (t94' <- usub (Z.of_nat (length buf)) 1 ;; t95' <- usub t94' j ;; Done t95')) ;;
-                                  let idx := t96' in
-                                  t97' <- arr_get buf idx ;;
-                                  t98' <- byte_to_digit w N fuel FROM_STR t97' ;;
-                                  let d := t98' in
-                                  if (d >=? radix_u8) then (
-                                    Done (Return (RErr KInvalidDigit))
-                                  ) else (
-                                    t99' <- dmul dbg w n (ud w radix) ;;
-                                    n <- dadd dbg w t99' (ud w d) ;;
-                                    let j := (j + 1) in
-                                    Done (Continue (n, j))
-                                  ))
-                                (n, j) ;;
-                              match t101' with
-                              | Exited (n, j) =>
-                                  match (AddSub.U_checked_add w out (Core.from_digit (Z.to_nat N) n)) with
-                                  | Some out'1 => (
-                                      let out := out'1 in
-                                      let start := end_ in
-                                      Done (Continue (out, start))
-                                    )
-                                  | None => (
-                                      Done (Return (RErr KPosOverflow))
-                                    )
-                                  end
-                              | Returned t102' => Done (Return t102')
-                              end
-                            )
-                        | Returned t86' => Done (Return t86')
-                        end)
-                      (out, start) ;;
-                    match t103' with
-                    | Exited (out, start) =>
-                        Done (ROk out)
-                    | Returned t104' => Done t104'
-                    end
-                | Returned t83' => Done t83'
-                end
-            | Returned t72' => Done t72'
-            end
-          ) else (
-            t105' <- radix_base w N fuel radix ;;
-            let '(base, power) := t105' in
-            t106' <- urem input_digits_len power ;;
-            let r := t106' in
-            let split := (if (r =? 0) then power else r) in
-            let radix_u8 := (to_u8 radix) in
-            let out := (ZERO (Z.to_nat N)) in
-            let first := 0 in
-            let i := (if leading_sign then 1 else 0) in
-            t114' <- while_loop (R := (result (list Z))) fuel
-              (fun '(first, i) => (i <? (if leading_sign then (split + 1) else split)))
-              (fun '(first, i) =>
-                t109' <- (if BE then (Done i) else (t107' <- usub (Z.of_nat (length buf)) 1 ;; t108' <- usub t107' i ;; Done t108')) ;;
-                let idx := t109' in
-                t110' <- arr_get buf idx ;;
-                t111' <- byte_to_digit w N fuel FROM_STR t110' ;;
-                let d := t111' in
-                if (d >=? radix_u8) then (
-                  Done (Return (RErr KInvalidDigit))
-                ) else (
-                  t112' <- dmul dbg w first (ud w radix) ;;
-                  first <- dadd dbg w t112' (ud w d) ;;
-                  let i := (i + 1) in
-                  Done (Continue (first, i))
-                ))
-              (first, i) ;;
-            match t114' with
-            | Exited (first, i) =>
-                out <- arr_set out 0 first ;;
-                let start := i in
-                t135' <- while_loop (R := (result (list Z))) fuel
-                  (fun '(out, start) => (start <? (Z.of_nat (length buf))))
-                  (fun '(out, start) =>
-                    let end_ := (start + power) in
-                    let carry := 0 in
-                    let j := 0 in
-                    t117' <- while_loop (R := (result (list Z))) fuel
-                      (fun '(out, carry, j) => (j <? N))
-                      (fun '(out, carry, j) =>
-                        t116' <- arr_get out j ;;
-                        let '(low, high) := (DigitGen.carrying_mul w t116' base carry 0) in
-                        let carry := high in
-                        out <- arr_set out j low ;;
-                        let j := (j + 1) in
-                        Done (Continue (out, carry, j)))
-                      (out, carry, j) ;;
-                    match t117' with
-                    | Exited (out, carry, j) =>
-                        if (negb (carry =? 0)) then (
-                          t124' <- while_loop (R := (result (list Z))) fuel
-                            (fun start => (andb (start <? (Z.of_nat (length buf))) (start <? end_)))
-                            (fun start =>
-                              t121' <- (if BE then (Done start) else (t119' <- usub (Z.of_nat (length buf)) 1 ;; t120' <- usub t119' start ;; Done t120')) ;;
-                              let idx := t121' in
-                              t122' <- arr_get buf idx ;;
-                              t123' <- byte_to_digit w N fuel FROM_STR t122' ;;
-                              let d := t123' in
-                              if (d >=? radix_u8) then (
-                                Done (Return (RErr KInvalidDigit))
-                              ) else (
-                                let start := (start + 1) in
-                                Done (Continue start)
-                              ))
-                            start ;;
-                          match t124' with
-                          | Exited start =>
-                              Done (Return (RErr KPosOverflow))
-                          | Returned t125' => Done (Return t125')
-                          end
-                        ) else (
-                          let n := 0 in
-                          let j := start in
-                          t133' <- while_loop (R := (result (list Z))) fuel
-                            (fun '(n, j) => (andb (j <? end_) (j <? (Z.of_nat (length buf)))))
-                            (fun '(n, j) =>
-                              t128' <- (if BE then (Done j) else (t126' <- usub (Z.of_nat (length buf)) 1 ;; t127' <- usub t126' j ;; Done t127')) ;;
-                              let idx := t128' in
-                              t129' <- arr_get buf idx ;;
-                              t130' <- byte_to_digit w N fuel FROM_STR t129' ;;
-                              let d := t130' in
-                              if (d >=? radix_u8) then (
-                                Done (Return (RErr KInvalidDigit))
-                              ) else (
-                                t131' <- dmul dbg w n (ud w radix) ;;
-                                n <- dadd dbg w t131' (ud w d) ;;
-                                let j := (j + 1) in
-                                Done (Continue (n, j))
-                              ))
-                            (n, j) ;;
-                          match t133' with
-                          | Exited (n, j) =>
-                              match (AddSub.U_checked_add w out (Core.from_digit (Z.to_nat N) n)) with
-                              | Some out'1 => (
-                                  let out := out'1 in
-                                  let start := end_ in
-                                  Done (Continue (out, start))
-                                )
-                              | None => (
-                                  Done (Return (RErr KPosOverflow))
-                                )
-                              end
-                          | Returned t134' => Done (Return t134')
-                          end
-                        )
-                    | Returned t118' => Done (Return t118')
-                    end)
-                  (out, start) ;;
-                match t135' with
-                | Exited (out, start) =>
-                    Done (ROk out)
-                | Returned t136' => Done t136'
-                end
-            | Returned t115' => Done t115'
-            end
-          )
+                              let start := (start + 1) in
+                              Done (Continue start)
+                            ))
+                          start ;;
+                        match t84' with
+                        | Exited start =>
+                            Done (Return (RErr KPosOverflow))
+                        | Returned t85' => Done (Return t85')
+                        end
+                      ) else (
+                        let n := 0 in
+                        let j := start in
+                        t93' <- while_loop (R := (result (list Z))) fuel
+                          (fun '(n, j) => (andb (j <? end_) (j <? (Z.of_nat (length buf)))))
+                          (fun '(n, j) =>
+                            t88' <- (if BE then (Done j) else (t86' <- usub (Z.of_nat (length buf)) 1 ;; t87' <- usub t86' j ;; Done t87')) ;;
+                            let idx := t88' in
+                            t89' <- arr_get buf idx ;;
+                            t90' <- byte_to_digit w N fuel FROM_STR t89' ;;
+                            let d := t90' in
+                            if (d >=? radix_u8) then (
+                              Done (Return (RErr KInvalidDigit))
+                            ) else (
+                              t91' <- dmul dbg w n (ud w radix) ;;
+                              n <- dadd dbg w t91' (ud w d) ;;
+                              let j := (j + 1) in
+                              Done (Continue (n, j))
+                            ))
+                          (n, j) ;;
+                        match t93' with
+                        | Exited (n, j) =>
+                            match (AddSub.U_checked_add w out (Core.from_digit (Z.to_nat N) n)) with
+                            | Some out'1 => (
+                                let out := out'1 in
+                                let start := end_ in
+                                Done (Continue (out, start))
+                              )
+                            | None => (
+                                Done (Return (RErr KPosOverflow))
+                              )
+                            end
+                        | Returned t94' => Done (Return t94')
+                        end
+                      )
+                  | Returned t78' => Done (Return t78')
+                  end)
+                (out, start) ;;
+              match t95' with
+              | Exited (out, start) =>
+                  Done (ROk out)
+              | Returned t96' => Done t96'
+              end
+          | Returned t75' => Done t75'
+          end
       )
     )
   ).
